@@ -204,7 +204,7 @@ func (i ctxSwapIcept) WrapStreamingHandler(next connect.StreamingHandlerFunc) co
 }
 
 func c15(run *ev.Run) int {
-	run.SetRule("instants = cancellation or deadline expiry before every operation of a bidi base program, before/between/after the operations of the typed unary, client-stream and server-stream APIs, and - triggered from a second goroutine once the operation has been blocked for 60 ms - inside a blocked Send (peer not reading), Receive (peer waiting; also mid-message with only part of an envelope delivered, mid-prefix with two of the five prefix bytes delivered, and while draining a message above the read limit), CloseAndReceive, unary call and CloseResponse; and inside the library: at the n-th time (n=1, thorough 1..3) the HTTP call reaches each of its 8 instrumented yield points (before the pipe write, closing the write side, before/after the HTTP round trip, after response validation, before a body read, before the drain in CloseResponse, before SetError closes the pipe), one case at a time; x 3 protocols x HTTP/1.1 + HTTP/2 x {cancel, deadline} x {the application's context, a context installed by a client interceptor}; handlers block on their own ctx.Done() so they are still running at the instant; oracle: every operation failing after the instant has code canceled / deadline_exceeded (Send may return an error wrapping io.EOF), Receive never ends cleanly, unary never succeeds, handler context done (HTTP/2), every op returns (watchdog); distinct by (HTTP version, protocol, kind, instant, mode)")
+	run.SetRule("instants = cancellation or deadline expiry before every operation of a bidi base program, before/between/after the operations of the typed unary, client-stream and server-stream APIs, and - triggered from a second goroutine once the operation has been blocked for 60 ms - inside a blocked Send (peer not reading), Receive (peer waiting; also mid-message with only part of an envelope delivered, mid-prefix with two of the five prefix bytes delivered, and while draining a message above the read limit), CloseAndReceive, unary call and CloseResponse; and inside the library: at the n-th time (n=1, thorough 1..3) the HTTP call reaches each of its 8 instrumented yield points (before the pipe write, closing the write side, before/after the HTTP round trip, after response validation, before a body read, before the drain in CloseResponse, before SetError closes the pipe), one case at a time; x 3 protocols x HTTP/1.1 + HTTP/2 x {cancel, deadline} x {the application's context, a context installed by a client interceptor}; handlers block on their own ctx.Done() so they are still running at the instant; plus calls a peer announces with a timeout of zero (every unit) while its own context is alive; oracle: every operation failing after the instant has code canceled / deadline_exceeded (Send may return an error wrapping io.EOF), Receive never ends cleanly, unary never succeeds, handler context done (HTTP/2), every op returns (watchdog); distinct by (HTTP version, protocol, kind, instant, mode)")
 	run.Assume("on HTTP/1.1 net/http propagates a client disconnect to the handler context only after the request body was read; the handler-context clause is enforced on HTTP/2 and counted when observed on HTTP/1.1")
 	reg := svc.NewRegistry()
 	hs := svc.Handlers(reg)
@@ -268,6 +268,7 @@ func c15(run *ev.Run) int {
 		}
 		c15Run(run, srv, c)
 	}
+	c15ZeroTimeout(run, srv)
 	serverPanicCheck(run, srv, "c15")
 	return run.Finish("cases", "ops.after_instant.checked", "handler_ctx.checked", "blocked_op.cancelled", "internal_point.instants")
 }
@@ -548,4 +549,48 @@ func (d *deadlineCtx) expire() {
 		close(d.done)
 	}
 	d.mu.Unlock()
+}
+
+// c15ZeroTimeout: a peer whose own context is still alive announces a timeout
+// of zero (a proxy that has used up the budget, another implementation, a
+// hand-set header). The call's time is up before it starts: the handler's
+// context is already done and the client is told deadline_exceeded - it never
+// runs without a deadline.
+func c15ZeroTimeout(run *ev.Run, srv *svc.Server) {
+	type zt struct{ proto, header, value string }
+	var zts []zt
+	for _, v := range []string{"0n", "0u", "0m", "0S", "0M", "0H", "00000000n"} {
+		zts = append(zts, zt{"grpc", "Grpc-Timeout", v}, zt{"grpcweb", "Grpc-Timeout", v})
+	}
+	zts = append(zts, zt{"connect", "Connect-Timeout-Ms", "0"}, zt{"connect", "Connect-Timeout-Ms", "0000000000"})
+	for _, z := range zts {
+		for _, kind := range []svc.Kind{svc.Unary, svc.ServerStream, svc.ClientStream} {
+			for _, h2 := range []bool{true, false} {
+				key := fmt.Sprintf("c15/zero-timeout/h2=%v/%s/%s/%s", h2, z.proto, kind, z.value)
+				if !run.Want(key) || run.Saturated() {
+					continue
+				}
+				prog := &svc.Program{Steps: []svc.Step{{Op: "recv"}, {Op: "waitctx"}}, ReturnCtxErr: true}
+				call := srv.Reg.New("c15z", prog)
+				cs := srv.Clients(h2, append(svc.ProtoOpts(z.proto, "proto"), connect.WithInterceptors(headerIcept{z.header, z.value}))...)
+				var cl *svc.CLog
+				ok, _ := watchdog(10*time.Second, func() { cl = cs.Do(context.Background(), kind, call.ID, nil, []*gen.Msg{{Id: 1}}) })
+				call.ReleaseNow()
+				srv.Reg.Drop(call)
+				cs.Tap.Forget(call.ID)
+				run.Count("cases", 1)
+				run.Count("zero_timeout.cases", 1)
+				run.Eval(fmt.Sprintf("zero-timeout|h2=%v|%s|%s|%s", h2, z.proto, kind, z.value))
+				detail := map[string]any{"protocol": z.proto, "kind": kind.String(), "header": z.header + ": " + z.value, "http2": h2}
+				if !ok {
+					run.Violation(key+"/runs-unbounded", "a call announced with a timeout of zero was still running after 10 s: its handler has no deadline", detail)
+					continue
+				}
+				detail["client_err"] = errStr(cl.Err)
+				if connect.CodeOf(cl.Err) != connect.CodeDeadlineExceeded || cl.Err == nil {
+					run.Violation(key+"/code", fmt.Sprintf("a call announced with a timeout of zero ended with %v, want deadline_exceeded", cl.Err), detail)
+				}
+			}
+		}
+	}
 }
